@@ -45,6 +45,7 @@ def handle (op : String) (fs : List (String × String)) : String :=
   else if op == "header.ximage" then (getField fs "want").getD "bad-case"
   else if op == "header.fontbytes" then "never"
   else if op == "header.xoutline" || op == "header.xnames" || op == "header.bigreadback" then "ok"
+  else if op == "header.nilequiv" then "same"
   else
     match (getField fs "file").bind fromHex with
     | none => "bad-case"
